@@ -63,7 +63,7 @@ func init() {
 		},
 		Assumptions: []string{
 			"every case runs in an expendable child process (case server); each stage is announced before it runs, so a fatal runtime error or a kill is attributed to the exact stage and the exploration continues",
-			"panic = recovered in the child (the innermost Helm function of the panicking stack names the class); no-return = the child died of a fatal runtime error (stack overflow) or burned 10 s of CPU time in one stage (normal stages take < 0.1 s) and was killed",
+			"panic = recovered in the child (the innermost Helm function of the panicking stack names the class); no-return = the child died of a fatal runtime error (stack overflow) or burned 6 s of CPU time in one stage (normal stages take < 0.1 s, the slowest designed case about 1 s) and was killed",
 			"exploration children run with a 128 MB stack limit so that unbounded recursion is reached in seconds; every new violation is confirmed 5x by the runner in children with the Go default of 1 GB (40 s CPU / 90 s wall watchdog), so a recursion that is merely deep does not count",
 			"resource exhaustion by legitimately huge results (e.g. `repeat 1000000000`, chained `quote`) is not generated: the statement names panic, unbounded recursion and hang",
 			"Kubernetes storage backends run over client-go's fake clientset; the SQL backend needs a database and is not covered; the Memory backend stores objects, not encoded records, so it has no corruptible body",
@@ -87,7 +87,9 @@ type res struct {
 	PClass string `json:"pclass,omitempty"` // class of the panic value (nil-deref, type-assertion, ...)
 }
 
-func (r res) bad() bool { return r.Kind != "ok" && r.Kind != "error" }
+// bad: neither a result nor an error. ("harness" = the case could not be set
+// up, e.g. a scratch file could not be written: reported as not exhaustive.)
+func (r res) bad() bool { return r.Kind != "ok" && r.Kind != "error" && r.Kind != "harness" }
 
 // call runs fn under recover and classifies its outcome.
 func call(stage string, fn func() error) (r res) {
